@@ -120,14 +120,26 @@ Example optional_defaults_in_order :
                         match trace s1, trace s2 with [1; 3; 4]%Z, [1; 2; 4]%Z => true | _, _ => false end
                     | _, _ => false end) [Slip; Ref; Chk] = true.
 Proof. vm_compute; reflexivity. Qed.
-(* known finding: the binder fills ONE scope; a closure made by a default form later sees the parameters bound after it
-   instead of the enclosing variables of the same names
-   (let ((b 1)) (funcall (lambda (&optional (f (lambda () b)) (b 5)) (funcall f))))      1, Go: 5 *)
+(* repaired (repo_fixes/C01-21): every parameter that gets the value of its default form is bound in a scope of its own;
+   a closure made by a default form sees the enclosing variable, not a parameter bound after it, and shares the
+   parameters before it with the body
+   (let ((b 1)) (funcall (lambda (&optional (f (lambda () b)) (b 5)) (funcall f))))                 => 1
+   (funcall (lambda (&optional (a 1) (g (lambda () a))) (setq a 7) (funcall g)))                     => 7   in every mode *)
 Definition w_default_closure :=
   [ELet [("b", I 1)] [EFuncall (ELambdaO [] [("f", ELambda [] [EVar "b"]); ("b", I 5)] [EFuncall (EVar "f") []]) []]].
-Lemma default_closure_refuted :
-  fst (runM 60 w_default_closure) = Ok (VInt 5) /\ fst (runS 60 w_default_closure) = Ok (VInt 1) /\ guardb 60 w_default_closure = false.
-Proof. repeat split; vm_compute; reflexivity. Qed.
+Definition w_default_shares :=
+  [EFuncall (ELambdaO [] [("a", I 1); ("g", ELambda [] [EVar "a"])] [ESetq [("a", I 7)]; EFuncall (EVar "g") []]) []].
+Example default_closure_lexical :
+  forallb (fun m => match fst (run m 60 w_default_closure), fst (run m 60 w_default_shares) with
+                    | Ok (VInt 1), Ok (VInt 7) => true | _, _ => false end) [Slip; Ref; Chk] = true.
+Proof. vm_compute; reflexivity. Qed.
+(* the defaults proceed like the bindings of let*: the default form in the scope built so far, the parameter in a new
+   scope that holds only it *)
+Lemma defaults_like_letstar : forall m ev st sc bnd x e os, existsb (String.eqb x) bnd = false ->
+  ev_defaults m ev st sc bnd ((x, e) :: os) =
+  bind (ev st sc e) (fun v st1 => bindo (store_red m v) st1 (fun a =>
+    ev_defaults m ev (snd (alloc st1 [(x, a)])) ((List.length (frames st1), 1) :: sc) (x :: bnd) os)).
+Proof. intros m ev st sc bnd x e os H. simpl. rewrite H. reflexivity. Qed.
 (* repaired (repo_fixes/C01-6): the end test of do / do* is evaluated whatever its shape.
    (do ((i 0 (1+ i))) (t 5)) => 5 ; (do* ((i 0 (1+ i)) (s nil (> i 2))) (s i)) => 3, in every mode, inside the guard *)
 Definition w_do_atom := [EDo false [("i", I 0, Some (EPrim PInc [EVar "i"]))] ET [I 5] []].
